@@ -755,6 +755,31 @@ Section Packaged.
     - apply eigen_root_eig_le; [exact He|exact Hx|apply HQ].
     - apply eigen_root_commutes. split; assumption.
   Qed.
+  (* C11 for the numel == 1 path (any configuration): a 1x1 input, NEGATIVE ENTRY INCLUDED, gives a positive
+     value bounded by eps^e - no guard on the sign of the entry *)
+  Theorem scalar_path_spd A (p : Z) (q : positive) cfg eps isd L Q out :
+    (0 < p)%Z -> 0 < eps -> expo Op p q < 0 ->
+    matrix_inverse_root Op [1%nat; 1%nat] A p q cfg eps isd L Q = Ok out ->
+    msym 1 (oX out)
+    /\ (forall x, nonzero 1 x -> 0 < qform Op 1 (oX out) x)
+    /\ (forall x, qform Op 1 (oX out) x <= Rpower eps (expo Op p q) * dot Op 1 x x)
+    /\ mcommute Op 1 (oX out) A
+    /\ 0 < oX out 0%nat 0%nat <= Rpower eps (expo Op p q).
+  Proof.
+    intros Hp He Hx H. unfold matrix_inverse_root in H. cbn [numel fold_right Nat.mul] in H.
+    rewrite scalar_root_ok in H by lia. injection H as <-. cbn [plain oX].
+    assert (HD : mis_diag Op 1 A) by (intros i j Hi Hj Hne; lia).
+    pose proof (diag_contract rnd 1 A HD) as HC.
+    pose proof (scalar_eq_eigen rnd p q eps A _ _ HC) as E.
+    split; [|split; [|split; [|split; [|split]]]].
+    - unfold msym. rewrite E. apply eigen_root_sym.
+    - intros x Hnz. rewrite E. apply eigen_root_pd; [apply HC|exact Hnz].
+    - intros x. rewrite E. apply eigen_root_eig_le; [exact He|exact Hx|apply HC].
+    - rewrite E. apply (eigen_root_commutes rnd 1 p q eps false). exact HC.
+    - unfold scalar_X, Rpower. apply exp_pos.
+    - unfold scalar_X. apply Rpower_le_neg; [exact He| |exact Hx].
+      unfold Rmin. destruct (Rle_dec (A 0%nat 0%nat) 0); lra.
+  Qed.
 End Packaged.
 
 (* ============================================================================ non-vacuity *)
